@@ -117,3 +117,20 @@ Print Assumptions C08_vtt_checked_writer_total.
 Print Assumptions C08_vtt_checked_reader_agrees.
 Print Assumptions C08_vtt_checked_writer_agrees.
 Print Assumptions C08_parse_duration_checked.
+
+(* ---- nil elements inside Items ----
+   Subtitles.Items is a public []*Item; since the fix "writers skip nil items" every writer starts with
+   s.Items = nonNilItems(s.Items).  Model: Kit.Chk.somes; the writer on a list with nil elements is the writer on the list
+   without them (harness: total.write.nil-item.* for the five writers -- no panic, same bytes / same error as without the
+   nil elements; srt.write.nil_item, vtt.write.nil_item, ssawritem: bytes against the model of the list without them). *)
+Theorem C08_srt_writer_total_nil_items : forall (l : list (option sitem)) p, write_srt_items_c l <> Panic p.
+Proof. exact write_srt_items_c_no_panic. Qed.
+Theorem C08_vtt_writer_total_nil_items : forall items d so ro p, write_vtt_items_c items d so ro <> Panic p.
+Proof. exact write_vtt_items_c_no_panic. Qed.
+Theorem C08_nil_items_skipped : forall (l : list sitem) (a b : list (option sitem)),
+  write_srt_items_c (map Some l) = write_srt_c l /\
+  write_srt_items_c (a ++ None :: b) = write_srt_items_c (a ++ b).
+Proof. exact nil_items_skipped. Qed.
+Print Assumptions C08_srt_writer_total_nil_items.
+Print Assumptions C08_vtt_writer_total_nil_items.
+Print Assumptions C08_nil_items_skipped.
